@@ -15,6 +15,7 @@
 #include <sys/wait.h>
 #include <sys/resource.h>
 #include <sys/time.h>
+#include <sys/prctl.h>
 
 static long now_ms(void) {
   struct timespec ts; clock_gettime(CLOCK_MONOTONIC, &ts);
@@ -24,6 +25,7 @@ static long now_ms(void) {
 int main(int argc, char **argv) {
   if (argc < 8) { fprintf(stderr, "usage\n"); return 99; }
   long tmo = atol(argv[1]);
+  prctl(PR_SET_PDEATHSIG, SIGKILL);     /* die with the harness process that started us */
   long long fsz = atoll(argv[2]);
   long asmb = atol(argv[3]);
   char sp = argv[4][0];
@@ -51,6 +53,7 @@ int main(int argc, char **argv) {
     struct rlimit core = {0, 0};
     setrlimit(RLIMIT_CORE, &core);
     signal(SIGPIPE, sp == 'i' ? SIG_IGN : SIG_DFL);
+    prctl(PR_SET_PDEATHSIG, SIGKILL);   /* never outlive the runner (a hung target must not survive a killed harness) */
     execv(cmd[0], cmd);
     _exit(127);
   }
